@@ -1,0 +1,26 @@
+//go:build verif
+// +build verif
+
+package iterator
+
+// Read-only exports for the verification harness (check C20: which block buffers an iterator holds).
+
+// VerifChildren returns the iterators directly under it: the children of a merged iterator, or the index
+// iterator (when it is an Iterator itself) and the current data iterator of an indexed iterator. Nil for any
+// other kind.
+func VerifChildren(it Iterator) []Iterator {
+	switch x := it.(type) {
+	case *mergedIterator:
+		return append([]Iterator(nil), x.iters...)
+	case *indexedIterator:
+		var out []Iterator
+		if ix, ok := x.index.(Iterator); ok && ix != nil {
+			out = append(out, ix)
+		}
+		if x.data != nil {
+			out = append(out, x.data)
+		}
+		return out
+	}
+	return nil
+}
